@@ -51,9 +51,9 @@ func freshTag(r *rand.Rand, used map[string]bool) string {
 // relatedTags returns unused tags that have t as a proper decimal suffix or prefix.
 func relatedTags(r *rand.Rand, t string, used map[string]bool) []string {
 	cands := []string{
-		strconv.Itoa(1+r.Intn(9)) + t,            // t is a proper suffix
-		strconv.Itoa(1+r.Intn(9)) + "0" + t,      // longer suffix relation
-		t + strconv.Itoa(r.Intn(10)),             // t is a proper prefix
+		strconv.Itoa(1+r.Intn(9)) + t,       // t is a proper suffix
+		strconv.Itoa(1+r.Intn(9)) + "0" + t, // longer suffix relation
+		t + strconv.Itoa(r.Intn(10)),        // t is a proper prefix
 		t + "0" + strconv.Itoa(r.Intn(10)),
 	}
 	if len(t) > 1 {
